@@ -24,7 +24,9 @@ def make_ws(ws, r, workers=None):
     sleeps = {n: r.choice(["0.3", "0.6", "1.0"]) for n in names}
     targets = []
     for n in names:
-        cmd = "\n".join([
+        cmd = "\n".join(([
+            # half of the shells ignore SIGTERM: "terminates the running target shells" must not depend on their cooperation
+            "trap '' TERM"] if r.chance(1, 2) else []) + [
             'echo "S %s $(date +%%s.%%N) $$" >> "$VTRACE"' % n,
             "sleep %s" % sleeps[n],
             "{ echo %s; %s } > %s.out" % (n, " ".join("cat %s.out;" % d for d in deps[n]), n),
